@@ -126,7 +126,7 @@ def add_room(
         solution = pfba(model)
 
     prob = model.problem
-    variable = prob.Variable("room_old_objective", ub=solution.objective_value)
+    variable = prob.Variable("room_old_objective")
     constraint = prob.Constraint(
         model.solver.objective.expression - variable,
         ub=0.0,
